@@ -15,6 +15,10 @@ Observation point: `ModeWrapper(<stack with seeded sample wrappers>, mode)[i]`  
                 stream probes (identical underlying samples, seeded layer adds element-wise continuous noise on every
                 call): outputs of indices that reach the seeded layer with different indices are pairwise different;
                 seeded mixup with p=1: no three indices share the mixing weight decoded from the label   -> same-stream:<wrapper>
+                wrappers serving two items from one draw (x + semseg, x + class): item k of index i requested through the modes
+                "<a>", "<b>", "<b> <a>", with index is bit-identical to the item in the fused mode "<a> <b>"   -> form-dependent:<wrapper>
+                once per run / shard: the reference tables of one stack per wrapper family recomputed in two other
+                interpreters (PYTHONHASHSEED=1 / 2) equal the table of the checking interpreter      -> interpreter-dependent:<wrapper>
                 an in-domain construction / request raising                                               -> *-crash / *-refused
 
 A violating stack is reduced to the seeded layer (and, inside it, to the smallest sub-tree of its transform) that still
@@ -24,7 +28,13 @@ from __future__ import annotations
 
 import contextlib
 import functools
+import hashlib
+import json
+import os
 import random as pyrandom
+import subprocess
+import sys
+import tempfile
 
 import numpy as np
 import torch
@@ -64,11 +74,14 @@ ASSUMPTIONS = [
     "indices sharing one weight: < C(10,3) * (1.5 * 2^-23)^2 < 4e-12 per case); for crop / flip / colour pipelines (BYOL, Minaug, MUGS) "
     "whose observable outputs are discrete after rounding it is recorded as evidence (index-sensitive tables), never judged",
     "seed sensitivity (another seed gives another table) is evidence, never a verdict",
+    "which ModeWrapper mode an item is requested through is not part of (data, config, seed, i): the same item of the same index must "
+    "agree across modes (ctx is not requested in this comparison)",
+    "a child interpreter that cannot be started / does not finish makes the run inconclusive, never violated",
     "a dataloader batch that does not arrive within 120 s makes the run inconclusive, never violated",
 ]
 MONITORS = ["reference_tables", "history_observations_compared", "second_instance_observations_compared", "request_form_observations_compared",
             "global_rng_perturbations", "loader_runs", "loader_runs_in_worker_processes", "loader_samples_compared",
-            "stream_pairs_compared", "mix_weights_decoded", "index_sensitive_tables"]
+            "stream_pairs_compared", "mix_weights_decoded", "index_sensitive_tables", "request_mode_items_compared", "interpreter_tables_compared"]
 
 STEP_LIMIT = 3_000_000
 WITNESSES_PER_KEY = 4
@@ -102,9 +115,47 @@ def _finish_spec(rng, st, loaders):
     return st
 
 
+XPROC_HASHSEEDS = [1, 2]
+XPROC_TIMEOUT_S = 900
+
+
+def _gen_xproc(run, rng, flags):
+    """one case per run / shard: a handful of seeded stacks (every wrapper family) whose reference tables are recomputed in two
+    other interpreters started with different PYTHONHASHSEED values"""
+    want = [("probe", "xtw", "x"), ("probe", "xtw", "y"), ("probe", "xtw", "source"), ("probe", "xtw", "target"), ("probe", "mv", ""),
+            ("probe", "semseg", ""), ("probe", "mix", ""), ("stack", "xtw2", ""), ("stack", "mv", ""), ("stack", "mix", ""), ("stack", "semseg", ""),
+            ("common", "minaug_x", ""), ("common", "minaug_mv", ""), ("common", "byol_mv", ""), ("common", "mugs_mv", ""), ("fused", "", "")]
+    if not run.quick():
+        want = want + [("stack", f, "") for f in ("xtw", "xtw", "xtw2", "mv", "mix", "semseg")] + [("probe", w, "") for w in ("xtw", "mv", "semseg")]
+    specs = []
+    for kind, w, item in want:
+        for _ in range(60):
+            if kind == "probe":
+                st = S.gen_probe(rng)
+                l = st["layers"][st["probe"]["layer"]]
+                ok = st["probe"]["wrapper"] == w and (not item or l.get("item") == item)
+            elif kind == "stack":
+                st = S.gen_stack(rng, flags, family=w)
+                ok = any(S.stochastic_layer(l) for l in st["layers"] if l["w"] in S.SEEDED)
+            elif kind == "common":
+                st = S.gen_stack(rng, flags, family="common")
+                ok = any(l["w"] == w for l in st["layers"])
+            else:
+                st = S.gen_fused(rng, flags)
+                ok = True
+            if ok:
+                st = _finish_spec(rng, st, 0)
+                st.pop("_trivial", None)
+                st["probe"] = None
+                specs.append(st)
+                break
+    return {"xproc": specs, "hashseeds": list(XPROC_HASHSEEDS)}
+
+
 def gen_cases(run):
     rng = run.rng
     flags = _flags(run)
+    yield _gen_xproc(run, rng, flags)
     n_probe = run.n(50, 16 * 300)
     n_stack = run.n(118, 16 * 1000)
     n_common = run.n(8, 16 * 30)
@@ -342,6 +393,41 @@ def evaluate(spec, stats=None, loaders=True, light=False, codes=None):
             f = _judge_streams(spec, probe, m, raw, R, bump)
             if f:
                 return f
+
+        # ---- request forms of wrappers that serve two items from one draw: item k of sample i is the same value through every mode
+        fl = S.fused_layer(layers)
+        if fl is not None:
+            items = S.FORM_ITEMS[layers[fl]["w"]]
+            full = " ".join(items)
+            r = pyrandom.Random(spec["hist_seed"] + 1)
+            alts = [items[0], items[1], f"{items[1]} {items[0]}", r.choice([f"index {items[1]}", f"{items[0]} index", f"{items[1]} index {items[0]}"])]
+            tables = {}
+            for mode in [full] + alts:
+                _seed_globals(g2 + 17)
+                ok, mwf = call_real(col, lambda: S.build_stack(dict(spec, mode=mode, return_ctx=False)), crash_key="construct-crash",
+                                    what=f"constructing the stack under mode {mode!r}")
+                if not ok:
+                    return crash("construct")
+                order = list(range(m))
+                r.shuffle(order)
+                comp = {}
+                for i in order:
+                    out, f = get(mwf, i, f"request mw[{i}] under mode {mode!r}")
+                    if f:
+                        return f
+                    names = mode.split(" ")
+                    vals = [out] if len(names) == 1 else list(out)
+                    for nm, v in zip(names, vals):
+                        if nm != "index":
+                            comp[(nm, i)] = canon_value(v)
+                tables[mode] = comp
+            for mode in alts:
+                for (nm, i), cv in sorted(tables[mode].items()):
+                    bump("request_mode_items_compared")
+                    if cv != tables[full][(nm, i)]:
+                        return {"kind": "form-dependent", "layer": fl,
+                                "what": f"index {i}: item '{nm}' requested through mode {mode!r} differs from the same item requested through mode {full!r} "
+                                        f"(same stack, same seeds; every mode alone is repeatable): sample {i} is not one function of (data, config, seed, i)"}
         return None
 
     with budget("observing one stack in the main process"):
@@ -491,6 +577,8 @@ def _reduce(spec, finding):
     out = []
     layers = spec["layers"]
     loader_only = finding.get("obs") == "loader"
+    if finding["kind"] == "form-dependent":
+        return [(spec, finding, S.wrapper_family(layers[finding["layer"]]))]
     if finding["kind"] == "same-stream":
         l = layers[finding["layer"]]
         return [(spec, finding, S.wrapper_family(l))]
@@ -616,7 +704,80 @@ def _reduce(spec, finding):
 
 
 # ------------------------------------------------------------------------------------------------ case execution
+def _table_digests_here(spec):
+    return S.table_digests(spec)
+
+
+def _run_xproc(run, case):
+    specs = case["xproc"]
+    here = []
+    for sp in specs:
+        col = _Collector()
+        ok, d = call_real(col, lambda: _table_digests_here(sp), crash_key="getitem-crash", what="reference table in the checking interpreter")
+        here.append(d if ok else None)  # crashes in the main interpreter are the business of the ordinary cases
+    tmp = tempfile.mkdtemp(prefix="kdv_c08x_")
+    spec_path = os.path.join(tmp, "specs.json")
+    with open(spec_path, "w") as fh:
+        json.dump(specs, fh)
+    procs = []
+    for hs in case["hashseeds"]:
+        env = dict(os.environ, PYTHONHASHSEED=str(hs))
+        outp = os.path.join(tmp, f"out{hs}.json")
+        procs.append((hs, outp, subprocess.Popen([sys.executable, "-m", "kdv.h08_child", spec_path, outp], cwd=str(core.VERIF), env=env,
+                                                  stdout=subprocess.PIPE, stderr=subprocess.STDOUT, text=True)))
+    results = {}
+    try:
+        for hs, outp, p in procs:
+            try:
+                so, _ = p.communicate(timeout=XPROC_TIMEOUT_S)
+            except subprocess.TimeoutExpired:
+                p.kill()
+                raise core.Inconclusive(f"child interpreter (PYTHONHASHSEED={hs}) did not finish within {XPROC_TIMEOUT_S}s")
+            if p.returncode != 0 or not os.path.exists(outp):
+                raise core.Inconclusive(f"child interpreter (PYTHONHASHSEED={hs}) failed (rc={p.returncode}): {so[-600:]}")
+            results[hs] = json.load(open(outp))
+    finally:
+        import shutil
+        shutil.rmtree(tmp, ignore_errors=True)
+    run.count("child_interpreters", len(results))
+    def fam_set(sp):
+        return sorted({S.wrapper_family(l) for l in sp["layers"] if l["w"] in S.SEEDED})
+
+    # stacks with one seeded family first: a stack of several families is named after a member family that already differs alone
+    order = sorted(range(len(specs)), key=lambda k: len(fam_set(specs[k])))
+    differing = set()
+    for k in order:
+        sp = specs[k]
+        if here[k] is None:
+            continue
+        fs = fam_set(sp)
+        fams = "+".join(fs)
+        if len(fs) > 1 and differing & set(fs):
+            fams = sorted(differing & set(fs))[0]
+        run.cover("interpreter", fams, "+".join(l["w"] for l in sp["layers"]))
+        for hs, res in results.items():
+            t = res["tables"][k]
+            one = {"xproc": [sp], "hashseeds": [hs]}
+            if "error" in t:
+                run.violation(f"interpreter-crash:{t['error'].split(':')[0]}:{fams}",
+                              f"{_brief(sp)}: the table computes in the checking interpreter but raises in an interpreter started with PYTHONHASHSEED={hs}: {t['error']}\n{t.get('tb', '')}", one)
+                continue
+            run.count("interpreter_tables_compared")
+            run.count("interpreter_samples_compared", len(here[k]))
+            if t["digests"] != here[k]:
+                if len(fs) == 1:
+                    differing.add(fs[0])
+                bad = [i for i, (a, b) in enumerate(zip(here[k], t["digests"])) if a != b]
+                run.violation(f"interpreter-dependent:{fams}",
+                              f"{fams}: {_brief(sp)} mode={sp['mode']!r}: the reference table computed in an interpreter started with PYTHONHASHSEED={hs} differs from the "
+                              f"table of the checking interpreter (PYTHONHASHSEED={os.environ.get('PYTHONHASHSEED')}) at indices {bad[:8]} - sample i depends on "
+                              f"interpreter-private state (it would differ between spawned workers / ranks / runs)", one)
+                break
+
+
 def run_case(run, spec):
+    if "xproc" in spec:
+        return _run_xproc(run, spec)
     layers = spec["layers"]
     stats = {}
     finding = evaluate(spec, stats, loaders=True, codes=_codes(run))
